@@ -17,7 +17,7 @@ EXTENDS Bytes, TLC
 
 CONSTANTS Templates,       \* route templates offered to AddRoute: Seq([k: "lit"|"var", s: text])
           ResKinds,        \* resources: [plain: SUBSET methods, sfx: SUBSET methods] (on_x / on_x_s)
-          SinkPats,        \* sink prefixes: Seq([k: "lit"|"digits"|"seg", s: text or group name])
+          SinkPats,        \* sink prefixes: Seq([k: token kind, s: text / group name / alternatives]) (see SinkMatch)
           StaticPrefixes,  \* static prefixes (text, starting with "/", no trailing "/")
           MaxCalls,        \* bound on the number of assembly calls
           NewestFirst,     \* design switch: a new sink/static goes to the FRONT of its list (TRUE = the design)
@@ -47,12 +47,13 @@ Combined == HttpMethods \cup WebDavMethods \cup Meta
 RECURSIVE LStripSlash(_)
 LStripSlash(p) == IF p # <<>> /\ Head(p) = SLASH THEN LStripSlash(Tail(p)) ELSE p
 
-RECURSIVE SplitSlash(_)        \* Python's s.split('/'): at least one, possibly empty, segment
-SplitSlash(s) ==
-    LET C == {i \in 1..Len(s) : s[i] = SLASH}
+RECURSIVE SplitOn(_, _)        \* Python's s.split(sep): at least one, possibly empty, piece
+SplitOn(s, sep) ==
+    LET C == {i \in 1..Len(s) : s[i] = sep}
     IN  IF C = {} THEN <<s>>
         ELSE LET i == CHOOSE i \in C : \A j \in C : i <= j
-             IN  <<SubSeq(s, 1, i - 1)>> \o SplitSlash(SubSeq(s, i + 1, Len(s)))
+             IN  <<SubSeq(s, 1, i - 1)>> \o SplitOn(SubSeq(s, i + 1, Len(s)), sep)
+SplitSlash(s) == SplitOn(s, SLASH)
 
 Segments(p) == SplitSlash(LStripSlash(p))
 
@@ -92,9 +93,30 @@ DMatch(rs, p) == Dfs(rs, <<>>, Segments(p), {})
 
 
 -----------------------------------------------------------------------------
-(* sink prefixes: a compiled regular expression matched at the START of the path.  The pattern
-   language here: literal text, (?P<name>\d+), (?P<name>[^/]+); a group is followed by the end of
-   the pattern or by a literal starting with "/" (so greedy matching needs no backtracking). *)
+(* sink prefixes: a compiled regular expression matched at the START of the path; the NAMED groups that
+   took part in the match arrive as keyword arguments, unnamed groups never do.  Pattern language (tokens):
+     lit      literal text
+     digits   (?P<name>\d+)          seg    (?P<name>[^/]+)          named groups (s = the name)
+     udigits  (\d+)                  useg   ([^/]+)                  the same, unnamed
+     ualt     (x|y|..)               unnamed alternation of literals, s = the alternatives joined by "|";
+                                     no alternative is a prefix of another
+     optlit   (text)?                unnamed optional group, LAST token only, text starts with "/"
+     optrest  (/REST)?$              unnamed optional group "/" + any text (REST = dot star) + end anchor, LAST token only
+   A run group (digits / seg / udigits / useg) is followed by the end of the pattern, by a literal starting
+   with "/" or by a trailing optional token, so greedy matching needs no backtracking (WellFormedSink). *)
+BAR == 124
+RunKinds == {"digits", "seg", "udigits", "useg"}
+NamedKinds == {"digits", "seg"}
+OptKinds == {"optlit", "optrest"}
+WellFormedSink(pat) ==
+    \A i \in 1..Len(pat) :
+        /\ pat[i].k \in OptKinds => (i = Len(pat) /\ (pat[i].k = "optrest" \/ (pat[i].s # <<>> /\ Head(pat[i].s) = SLASH)))
+        /\ (pat[i].k \in RunKinds /\ i < Len(pat)) =>
+               \/ pat[i + 1].k \in OptKinds
+               \/ (pat[i + 1].k = "lit" /\ pat[i + 1].s # <<>> /\ Head(pat[i + 1].s) = SLASH)
+        /\ pat[i].k = "ualt" => LET A == SplitOn(pat[i].s, BAR)
+                                IN  \A x \in 1..Len(A), y \in 1..Len(A) : x # y => ~IsPrefix(A[x], A[y])
+
 RECURSIVE RunLen(_, _, _)
 RunLen(p, i, digitsOnly) ==          \* length of the maximal run of group characters from 1-based position i
     IF i > Len(p) \/ p[i] = SLASH \/ (digitsOnly /\ ~IsDigit(p[i])) THEN 0 ELSE 1 + RunLen(p, i + 1, digitsOnly)
@@ -104,13 +126,24 @@ RECURSIVE SinkFrom(_, _, _, _)
 SinkFrom(pat, p, i, kw) ==           \* i: 0-based offset into p
     IF pat = <<>> THEN [found |-> TRUE, kw |-> kw]
     ELSE LET tok == Head(pat)
-         IN  IF tok.k = "lit"
-             THEN (IF IsAt(p, tok.s, i) THEN SinkFrom(Tail(pat), p, i + Len(tok.s), kw) ELSE NoSink)
-             ELSE LET r == RunLen(p, i + 1, tok.k = "digits")
-                  IN  IF r = 0 THEN NoSink
-                      ELSE SinkFrom(Tail(pat), p, i + r, kw \cup {[n |-> tok.s, v |-> Slice(p, i, i + r)]})
+         IN  CASE tok.k = "lit" ->
+                    (IF IsAt(p, tok.s, i) THEN SinkFrom(Tail(pat), p, i + Len(tok.s), kw) ELSE NoSink)
+               [] tok.k \in RunKinds ->
+                    LET r == RunLen(p, i + 1, tok.k \in {"digits", "udigits"})
+                    IN  IF r = 0 THEN NoSink
+                        ELSE SinkFrom(Tail(pat), p, i + r,
+                                      IF tok.k \in NamedKinds THEN kw \cup {[n |-> tok.s, v |-> Slice(p, i, i + r)]} ELSE kw)
+               [] tok.k = "ualt" ->
+                    LET A == SplitOn(tok.s, BAR)
+                        H == {x \in 1..Len(A) : IsAt(p, A[x], i)}
+                    IN  IF H = {} THEN NoSink
+                        ELSE SinkFrom(Tail(pat), p, i + Len(A[CHOOSE x \in H : TRUE]), kw)
+               [] tok.k = "optlit" ->           \* takes part or not: the named groups before it are delivered either way
+                    SinkFrom(Tail(pat), p, IF IsAt(p, tok.s, i) THEN i + Len(tok.s) ELSE i, kw)
+               [] tok.k = "optrest" ->
+                    (IF i = Len(p) \/ p[i + 1] = SLASH THEN SinkFrom(Tail(pat), p, Len(p), kw) ELSE NoSink)
 SinkMatch(pat, p) == SinkFrom(pat, p, 0, {})
-GroupNames(pat) == {pat[i].s : i \in {j \in 1..Len(pat) : pat[j].k # "lit"}}
+GroupNames(pat) == {pat[i].s : i \in {j \in 1..Len(pat) : pat[j].k \in NamedKinds}}
 
 (* static routes: the prefix is completed with "/" and compared as text; with a fallback file the
    bare prefix matches too *)
@@ -241,12 +274,13 @@ Spec == Init /\ [][Next]_vars
 
 -----------------------------------------------------------------------------
 (* the property, clause by clause, for one request (m, p) with decision o.  c is the declarative
-   reading of the path: c.segs its segments, c.hit whether some route template matches it, c.S / c.T
+   reading of the path: c.p the path, c.segs its segments, c.hit whether some route template matches it, c.S / c.T
    the positions of the sinks / static routes that match it. *)
 SegsMatch(t, segs) == Len(t) = Len(segs) /\ \A i \in 1..Len(t) : t[i].k = "var" \/ t[i].s = segs[i]
 PathFacts(p) ==
     LET segs == Segments(p)
-    IN  [segs |-> segs,
+    IN  [p    |-> p,
+         segs |-> segs,
          hit  |-> \E e \in routes : SegsMatch(e.tmpl, segs),
          S    |-> {i \in 1..Len(sinks) : SinkMatch(sinks[i].pat, p).found},
          T    |-> {i \in 1..Len(statics) : StaticMatch(statics[i], p)}]
@@ -285,7 +319,10 @@ KwargsAreFields(m, c, o) ==
     /\ o.kind = "Responder" => \E e \in routes : /\ e.rid = o.id
                                                  /\ o.kw = {[n |-> e.tmpl[i].s, v |-> c.segs[i]] :
                                                               i \in {j \in 1..Len(e.tmpl) : e.tmpl[j].k = "var"}}
-    /\ o.kind = "Sink" => \E i \in 1..Len(sinks) : sinks[i].id = o.id /\ {x.n : x \in o.kw} = GroupNames(sinks[i].pat)
+    /\ o.kind = "Sink" => \E i \in 1..Len(sinks) : /\ sinks[i].id = o.id
+                                                   /\ {x.n : x \in o.kw} = GroupNames(sinks[i].pat)     \* the named groups, all of them,
+                                                   /\ Cardinality(o.kw) = Cardinality(GroupNames(sinks[i].pat))   \* one value each,
+                                                   /\ \A x \in o.kw : x.v # <<>> /\ Occurs(c.p, x.v)     \* a non-empty piece of the path
     /\ o.kind \notin {"Responder", "Sink"} => o.kw = {}
 
 (* HTTP requests with the WEBSOCKET pseudo-method are refused before routing *)
